@@ -225,3 +225,61 @@ def check_C14(tier, seed):
 def check_C11(tier, seed):
     return run_ref_property("C11", tier, seed, cores.fault_catalogue(), ["C11"], 2, 4, file_name="f.txt", flagsets_q=("std",),
                             bounds_extra={"fault_plan": "symbolic: per block slot, first two invocations in {none, errA, errB, panic}", "Recover": "symbolic"})
+
+
+def check_C10(tier, seed):
+    rep = Report("C10", tier, seed, "translation_validation")
+    w = Work()
+    w.build_pigeon()
+    quick = tier == "quick"
+    N, tmo = (3, 60) if quick else (4, 900)
+    pc = cores.pair_core()
+    groups = [
+        (pc[::4] if quick else pc, [[], ["-optimize-basic-latin"]]),
+        (cores.composites(), [[], ["-optimize-basic-latin"], ["-optimize-grammar"]]),
+        (cores.state_catalogue()[::2 if quick else 1], [[]]),
+        (cores.throw_catalogue(), [[]]),
+        (cores.fail_catalogue(), [[]]),
+        (cores.context_catalogue(), [[]]),
+        (cores.lr_catalogue(), [["-support-left-recursion"]]),
+    ]
+    cases = []
+    for cat, xs in groups:
+        for g in cat:
+            for k, x in enumerate(xs if not quick else xs[:2]):
+                cases.append(rel_case(g, ["C10"], x, x + ["-optimize-parser"], suffix="_x%d" % k))
+    twin = rel_case(pc[0], ["TWIN"], [], ["-optimize-parser"], suffix="_twin")
+    catcheck.prepare(w, cases + [twin])
+    agg = catcheck.explore(w, rep, cases, "C10", r"Harness_C10$", N, tmo, "rel", seed=seed, validate_pkgs=6 if quick else 20)
+    twin_check(w, rep, twin)
+    std_cov(rep, agg, cases, {"input_bytes_max": N, "flag_pairs": "(X, X + -optimize-parser), X in {none, -optimize-basic-latin, -optimize-grammar, -support-left-recursion}"},
+            "one state = one explored path (class of inputs on which both real parsers take the same decisions)", REL_FUNCS)
+    rep.cov["disagreements_checked"] = agg["cex"]
+    rep.assumptions += ["grammars outside the catalogue and inputs longer than the bound are outside the claim", "default runtime options"]
+    return rep.finish()
+
+
+def check_C09(tier, seed):
+    rep = Report("C09", tier, seed, "translation_validation")
+    w = Work()
+    w.build_pigeon()
+    quick = tier == "quick"
+    N, tmo = (3, 60) if quick else (4, 900)
+    cat = cores.opt_catalogue() + cores.composites() + cores.context_catalogue() + (cores.pair_core()[::5] if quick else cores.pair_core())
+    cases = []
+    for g in cat:
+        ents = g.get("entries") or [""]
+        alt = [e for e in ents if e]
+        bflags = ["-optimize-grammar"]
+        if alt:
+            bflags += ["-alternate-entrypoints", ",".join(alt)]
+        cases.append(rel_case(g, ["C09"], [], bflags, entries=ents))
+    twin = rel_case(cat[0], ["TWIN"], [], ["-optimize-grammar"], suffix="_twin")
+    catcheck.prepare(w, cases + [twin])
+    agg = catcheck.explore(w, rep, cases, "C09", r"Harness_C09$", N, tmo, "rel", seed=seed, validate_pkgs=6 if quick else 20)
+    twin_check(w, rep, twin)
+    std_cov(rep, agg, cases, {"input_bytes_max": N, "entrypoints": "first rule and every rule in -alternate-entrypoints"},
+            "one state = one explored path (class of inputs on which the optimized and the unoptimized real parser take the same decisions)", REL_FUNCS)
+    rep.cov["disagreements_checked"] = agg["cex"]
+    rep.assumptions += ["grammars with throw/recover are excluded (ast.Walk does not support them: see C13)"]
+    return rep.finish()
